@@ -260,6 +260,13 @@ def c06(run):
     own = lambda m: site_of(m).startswith(("map_roundtrip", "map_edits", "scenario")) and m["kind"] != "getter"
     run.scen("MC_Map", {"Tier": '"%s"' % run.tier, "Seed": vlib.SEED % 300, "NRand": 1500 if run.thorough else 250}, invariants=MAP_INV, workers=8, own=own)
     _map_edit(run, own)
+    _c06_faulted(run)
+
+
+def _c06_faulted(run):
+    # the round-trip law on whatever the reader accepts among the faulted maps of the C07 fault model (fields that leave the layout alone)
+    run.scen("MC_MapFault", {"Seed": vlib.SEED % 300, "NRand": 0}, small_heap=True, max_crashes=200, own=lambda m: "/roundtrip-law" in m["site"],
+             name="MC_MapFault (round-trip law on accepted faulted maps)")
 
 
 def c16(run):
@@ -269,7 +276,7 @@ def c16(run):
 
 
 def c07(run):
-    run.scen("MC_MapFault", {"Seed": vlib.SEED % 300, "NRand": 2000 if run.thorough else 400}, small_heap=True, max_crashes=200)
+    run.scen("MC_MapFault", {"Seed": vlib.SEED % 300, "NRand": 2000 if run.thorough else 400}, small_heap=True, max_crashes=200, own=lambda m: "/roundtrip-law" not in m["site"])
     # a saved game yields the same fields as a map holding the same embedded portion (specification: MapFile!SavedGame)
     run.scen("MC_Map", {"Tier": '"%s"' % run.tier, "Seed": vlib.SEED % 300, "NRand": 800 if run.thorough else 160}, invariants=MAP_INV, workers=8, own=by_prefix("save_equiv", "scenario"), name="MC_Map (saved game = map)")
 
